@@ -14,4 +14,4 @@ if [ -n "$REPLAY" ] && [ -f "$VC/$REPLAY" ]; then python3 -c "
 import json,sys
 o=json.load(open('$VC/$REPLAY'))
 print('replay:', {k:(str(v)[:300]) for k,v in o.items() if k in ('kind','sig','case','detail','name')})"; fi
-git -C /repo worktree remove --force "$WT"; rm -rf "$VC"
+git -C /repo worktree remove --force "$WT"; if [ -n "${SEEDRUN_KEEP:-}" ]; then mkdir -p "$SEEDRUN_KEEP"; cp "$VC/out.txt" "$SEEDRUN_KEEP/$PID.out.txt"; fi; rm -rf "$VC"
